@@ -1,3 +1,4 @@
 SPECIFICATION TSpec
 CONSTANT CHECKS = {"fault"}
+CONSTANT Deviations = {"C15-conv-nomem-dst-untouched", "C15-conv-drops-broken"}
 POSTCONDITION TraceAccepted
